@@ -4415,3 +4415,103 @@ func init() {
 		}
 	})
 }
+
+// ======== round 10 ========
+
+// filterInputRule (C08): a filter neither appends to its input nor hands it back unchanged unless it is empty.
+func filterInputRule(c *Ctx, r *Result, ruleAppend, ruleEmpty string) {
+	nA, nE := 0, 0
+	for _, fn := range c.LibFuncs() {
+		name := c.Name(fn)
+		isFilter := (strings.HasPrefix(name, "writer.") && (strings.HasSuffix(name, ".Apply") || strings.HasSuffix(name, ".Remove") || strings.HasPrefix(name, "writer.lzf"))) ||
+			(strings.HasPrefix(name, "core.apply") || strings.HasPrefix(name, "core.lzf"))
+		if !isFilter || fn.Blocks == nil {
+			continue
+		}
+		isInput := func(v ssa.Value) bool {
+			for i := 0; i < 4; i++ {
+				if sl, ok := v.(*ssa.Slice); ok {
+					v = sl.X
+				}
+			}
+			p, ok := v.(*ssa.Parameter)
+			return ok && isBytesOrString(p.Type())
+		}
+		k := 0
+		for _, site := range callsIn(fn) {
+			call, ok := site.(*ssa.Call)
+			if !ok || len(call.Call.Args) == 0 {
+				continue
+			}
+			isAppend := false
+			var first ssa.Value
+			if b, isB := call.Call.Value.(*ssa.Builtin); isB && b.Name() == "append" {
+				isAppend, first = true, call.Call.Args[0]
+			} else if call.Call.IsInvoke() && strings.HasPrefix(call.Call.Method.Name(), "Append") {
+				isAppend, first = true, call.Call.Args[0]
+			} else if f := call.Call.StaticCallee(); f != nil && fnPkgPath(f) == "encoding/binary" && strings.HasPrefix(f.Name(), "Append") {
+				isAppend, first = true, call.Call.Args[len(call.Call.Args)-2]
+			}
+			if !isAppend {
+				continue
+			}
+			nA++
+			k++
+			r.Check(!isInput(first), ruleAppend, fmt.Sprintf("%s#append-%d", name, k), c.InstrPos(call), "append builds on memory of the filter's own, not on the caller's chunk (which may have spare capacity that belongs to the next chunk)")
+		}
+		// returns of the input itself
+		k = 0
+		for _, ret := range returnsOf(fn) {
+			if len(ret.Results) == 0 {
+				continue
+			}
+			if _, isP := ret.Results[0].(*ssa.Parameter); !isP {
+				continue
+			}
+			b := ret.Block()
+			if len(b.Preds) != 1 {
+				continue
+			}
+			ifi, isIf := b.Preds[0].Instrs[len(b.Preds[0].Instrs)-1].(*ssa.If)
+			if !isIf {
+				continue
+			}
+			cmp, isC := ifi.Cond.(*ssa.BinOp)
+			if !isC {
+				continue
+			}
+			kk, isK := constInt(cmp.Y)
+			if !isK {
+				continue
+			}
+			// the compared value is len(input) (directly or through a local)
+			isLen := false
+			if call, isCall := stripConv(cmp.X).(*ssa.Call); isCall {
+				if bi, isB := call.Call.Value.(*ssa.Builtin); isB && bi.Name() == "len" && isInput(call.Call.Args[0]) {
+					isLen = true
+				}
+			}
+			if !isLen {
+				continue
+			}
+			nE++
+			k++
+			onTrue := b.Preds[0].Succs[0] == b
+			r.Check(cmp.Op == token.EQL && kk == 0 && onTrue, ruleEmpty, fmt.Sprintf("%s#input-returned-unchanged-%d", name, k), c.InstrPos(cmp), fmt.Sprintf("the input is handed back as it is under len(input) %s %d", cmp.Op, kk))
+		}
+	}
+	if nA < 3 {
+		r.Shortfall(c, ruleAppend, fmt.Sprintf("%s: only %d appends in the filter functions", ruleAppend, nA))
+	}
+	if nE < 3 {
+		r.Shortfall(c, ruleEmpty, fmt.Sprintf("%s: only %d returns of the unchanged input in the filter functions", ruleEmpty, nE))
+	}
+}
+
+func init() {
+	a, e := nextRuleID("C08"), ""
+	registry["C08"].Meta.Rules[a] = "a filter leaves the caller's chunk alone: in the Apply / Remove methods and the LZF and reader-side filter functions no append (builtin, AppendUintN) builds on the input slice (AppendUint32(data, checksum) writes the checksum of chunk k over the first bytes of chunk k+1 when both are windows of one dataset buffer)"
+	e = nextRuleID("C08")
+	registry["C08"].Meta.Rules[e] = "a filter hands its input back unchanged only when there is nothing to do: a test of len(input) against a constant whose arm returns the input itself is len(input) == 0 (with < 3 the two bytes the writer's LZF encoder produces for a one-byte chunk are returned as the chunk)"
+	registry["C08"].Rules = append(registry["C08"].Rules, func(c *Ctx, r *Result) { filterInputRule(c, r, a, e) })
+}
